@@ -15,9 +15,10 @@ func init() {
 }
 
 var (
-	c09Ranges  = []time.Duration{time.Second, 2 * time.Second, 3 * time.Second, 5 * time.Second, 10 * time.Second, 500 * time.Millisecond, 1500 * time.Millisecond, 45 * time.Second, 2 * time.Minute}
+	c09Ranges  = []time.Duration{time.Second, 2 * time.Second, 3 * time.Second, 5 * time.Second, 10 * time.Second, 500 * time.Millisecond, 1500 * time.Millisecond, 45 * time.Second, 2 * time.Minute,
+		3200 * 7 * 24 * time.Hour /* the window starts before 1970 */}
 	c09Offsets = []time.Duration{0, 0, 0, time.Second, 2 * time.Second, 5 * time.Second, 500 * time.Millisecond}
-	c09Steps   = []time.Duration{500 * time.Millisecond, time.Second, 2 * time.Second, 3 * time.Second, 5 * time.Second, 10 * time.Second}
+	c09Steps   = []time.Duration{100 * time.Millisecond, 200 * time.Millisecond, 300 * time.Millisecond, 700 * time.Millisecond, 500 * time.Millisecond, time.Second, 2 * time.Second, 3 * time.Second, 5 * time.Second, 10 * time.Second}
 	c09Fns     = []string{"count_over_time", "rate", "bytes_over_time", "bytes_rate", "sum_over_time", "avg_over_time", "min_over_time", "max_over_time",
 		"stddev_over_time", "stdvar_over_time", "quantile_over_time", "first_over_time", "last_over_time", "rate/unwrap"}
 )
